@@ -27,6 +27,7 @@ func runC20(r *Report) {
 	c20R1(r)
 	c20PathCmp(r)
 	c20FilesIndex(r)
+	c20FilesImmutable(r, "R1")
 	c20R2(r)
 	c20R3(r)
 	c20R4(r)
@@ -1116,4 +1117,103 @@ func c20FilesIndex(r *Report) {
 		})
 	}
 	r.Sentinel("R1.files-index", n, 3)
+}
+
+// ---------- the file table is immutable once published ----------
+
+// c20FilesImmutable: Torrent.Files is shared by the scheduler (fileChunks walks it in offset order), the web-seed
+// fetchers and both front-ends. After MetadataComplete has built it nothing may write through it: no store into one of
+// its elements (or into a slice that is an element's field — a Path component) and no in-place reordering (sort.Slice,
+// slices.SortFunc, slices.Reverse …) of the table or of an alias of it. Sorting for display is done on a list of indices.
+func c20FilesImmutable(r *Report, rule string) {
+	p := r.P
+	filesF := p.Field("tor", "Torrent", "Files")
+	mc := p.Func("tor", "Torrent.MetadataComplete")
+	if !r.Anchor(rule, "tor.Torrent.Files", filesF != nil) {
+		return
+	}
+	// aliases: values that denote the table or a part of it
+	var isTable func(v ssa.Value, d int) bool
+	isTable = func(v ssa.Value, d int) bool {
+		if d > 6 || v == nil {
+			return false
+		}
+		if fv, _ := loadedField(v); fv == filesF {
+			return true
+		}
+		switch x := v.(type) {
+		case *ssa.Slice:
+			return isTable(x.X, d+1)
+		case *ssa.Phi:
+			for _, e := range x.Edges {
+				if isTable(e, d+1) {
+					return true
+				}
+			}
+		case *ssa.UnOp:
+			if x.Op == token.MUL {
+				// a field of an element that is itself a slice (f.Path): &t.Files[i].Path
+				if fa, ok := x.X.(*ssa.FieldAddr); ok {
+					if ia, ok := fa.X.(*ssa.IndexAddr); ok {
+						return isTable(ia.X, d+1)
+					}
+				}
+			}
+		case *ssa.Field:
+			// f.Path of an element value loaded from the table (for _, f := range t.Files)
+			if ld, ok := x.X.(*ssa.UnOp); ok && ld.Op == token.MUL {
+				if ia, ok := ld.X.(*ssa.IndexAddr); ok {
+					return isTable(ia.X, d+1)
+				}
+			}
+		}
+		return false
+	}
+	n := 0
+	mutators := map[string]bool{"sort.Slice": true, "sort.SliceStable": true, "sort.Sort": true, "sort.Stable": true, "slices.Sort": true, "slices.SortFunc": true, "slices.SortStableFunc": true, "slices.Reverse": true}
+	for _, f := range p.SrcFuncs() {
+		if mc != nil && (f == mc || enclosingNamed(f) == mc) {
+			continue
+		}
+		pk := relPkg(f)
+		if !(pk == "tor" || pk == "http" || pk == "fuse" || pk == "webseed" || pk == "") {
+			continue
+		}
+		allInstrs(f, func(in ssa.Instruction) {
+			switch x := in.(type) {
+			case *ssa.Store:
+				ia, ok := x.Addr.(*ssa.IndexAddr)
+				if ok && isTable(ia.X, 0) {
+					n++
+					r.Fn(f)
+					r.Fail(rule, fname(f)+"/store-into-Torrent.Files", x.Pos(), "%s stores into the published file table (or into a path that belongs to it): the scheduler, the web-seed fetchers and the front-ends share it and assume it never changes", fname(f))
+				}
+				if fa, ok := x.Addr.(*ssa.FieldAddr); ok {
+					if ia2, ok2 := fa.X.(*ssa.IndexAddr); ok2 && isTable(ia2.X, 0) {
+						n++
+						r.Fn(f)
+						r.Fail(rule, fname(f)+"/store-into-Torrent.Files", x.Pos(), "%s assigns a field of an entry of the published file table", fname(f))
+					}
+				}
+			case *ssa.Call:
+				qp, qn := calleePkgName(x)
+				q := qp + "." + qn
+				if !mutators[q] || len(x.Call.Args) == 0 {
+					return
+				}
+				arg := x.Call.Args[0]
+				if mi, ok := arg.(*ssa.MakeInterface); ok {
+					arg = mi.X
+				}
+				if isTable(arg, 0) {
+					n++
+					r.Fn(f)
+					r.Fail(rule, fname(f)+"/"+q+"(Torrent.Files)", x.Pos(), "%s reorders the published file table in place with %s: fileChunks walks the table in offset order, so after this a range near a file boundary is mapped to the wrong file (or to a padding chunk with a negative offset) and web-seed data is stored over other bytes; listings and lookups of the other front-end change too", fname(f), q)
+				}
+			}
+		})
+	}
+	if n == 0 {
+		r.Ok(rule, "Torrent.Files/immutable-after-publication", token.NoPos, "no store into the file table and no in-place reordering of it outside MetadataComplete")
+	}
 }
